@@ -426,6 +426,72 @@ fn search_header_block(ctx: &mut Ctx, start: &[u8], kind: u8) {
     }
 }
 
+/// C18: a Request/Response value that has been through earlier calls must behave like a fresh one
+fn check_history_req(ctx: &mut Ctx, a: &[u8], cfga: u8, b: &[u8], cfgb: u8, cap: usize) {
+    ctx.evals += 1;
+    set_cur("request", cfgb, cap, b);
+    let mut arr1 = vec![httparse::Header { name: SENT_NAME, value: SENT_VAL }; cap];
+    let mut arr2 = vec![httparse::Header { name: SENT_NAME, value: SENT_VAL }; cap];
+    let (pa, pb) = (mkcfg(Cfg::from_bits(cfga)), mkcfg(Cfg::from_bits(cfgb)));
+    let mut used = httparse::Request::new(&mut arr1[..]);
+    let _ = pa.parse_request(&mut used, a);
+    let cap_now = used.headers.len();
+    let r1 = pb.parse_request(&mut used, b);
+    let mut fresh = httparse::Request::new(&mut arr2[..cap_now]);
+    let r2 = pb.parse_request(&mut fresh, b);
+    let same_status = outcome_of(r1) == outcome_of(r2);
+    let complete = matches!(r2, Ok(httparse::Status::Complete(_)));
+    let same_fields = !complete || (used.method == fresh.method && used.path == fresh.path && used.version == fresh.version
+        && used.headers.len() == fresh.headers.len() && used.headers.iter().zip(fresh.headers.iter()).all(|(x, y)| x.name == y.name && x.value == y.value));
+    if !same_status || !same_fields {
+        ctx.add(Finding { stage: "any", gen: "", family: "request", oracle: "history".into(), entry: "ParserConfig::parse_request (reused value)".into(), cfg: cfgb, cap,
+            input: b.to_vec(), real: format!("after an earlier parse of {:?} (cfg {}): {:?} method={:?} path={:?} version={:?} nheaders={}", String::from_utf8_lossy(a), cfga, r1, used.method, used.path, used.version, used.headers.len()),
+            expected: format!("fresh value: {:?} method={:?} path={:?} version={:?} nheaders={}", r2, fresh.method, fresh.path, fresh.version, fresh.headers.len()) });
+    }
+}
+fn check_history_resp(ctx: &mut Ctx, a: &[u8], cfga: u8, b: &[u8], cfgb: u8, cap: usize) {
+    ctx.evals += 1;
+    set_cur("response", cfgb, cap, b);
+    let mut arr1 = vec![httparse::Header { name: SENT_NAME, value: SENT_VAL }; cap];
+    let mut arr2 = vec![httparse::Header { name: SENT_NAME, value: SENT_VAL }; cap];
+    let (pa, pb) = (mkcfg(Cfg::from_bits(cfga)), mkcfg(Cfg::from_bits(cfgb)));
+    let mut used = httparse::Response::new(&mut arr1[..]);
+    let _ = pa.parse_response(&mut used, a);
+    let cap_now = used.headers.len();
+    let r1 = pb.parse_response(&mut used, b);
+    let mut fresh = httparse::Response::new(&mut arr2[..cap_now]);
+    let r2 = pb.parse_response(&mut fresh, b);
+    let same_status = outcome_of(r1) == outcome_of(r2);
+    let complete = matches!(r2, Ok(httparse::Status::Complete(_)));
+    let same_fields = !complete || (used.version == fresh.version && used.code == fresh.code && used.reason == fresh.reason
+        && used.headers.len() == fresh.headers.len() && used.headers.iter().zip(fresh.headers.iter()).all(|(x, y)| x.name == y.name && x.value == y.value));
+    if !same_status || !same_fields {
+        ctx.add(Finding { stage: "any", gen: "", family: "response", oracle: "history".into(), entry: "ParserConfig::parse_response (reused value)".into(), cfg: cfgb, cap,
+            input: b.to_vec(), real: format!("after an earlier parse of {:?} (cfg {}): {:?} version={:?} code={:?} reason={:?} nheaders={}", String::from_utf8_lossy(a), cfga, r1, used.version, used.code, used.reason, used.headers.len()),
+            expected: format!("fresh value: {:?} version={:?} code={:?} reason={:?} nheaders={}", r2, fresh.version, fresh.code, fresh.reason, fresh.headers.len()) });
+    }
+}
+fn search_history(ctx: &mut Ctx) {
+    ctx.gen = "history";
+    let reqs: Vec<&[u8]> = vec![b"", b"GET", b"GET /a", b"GET /abc HTTP/1.1\r\n", b"GET /abc HTTP/1.1\r\nHost: x\r\n\r\n", b"POST  /p  HTTP/1.0\r\nA: 1\r\nB: 2\r\n\r\n",
+        b"GET / HTTP/1.1\r\nBad Header\r\n\r\n", b"G\x01T / HTTP/1.1\r\n\r\n", b"GET / HTTP/1.1\r\nA: 1\r\nB: 2\r\nC: 3\r\n\r\n", b"PUT /x HTTP/1.1\r\nA:",
+        b"XGET /abc HTTP/1.1\r\nHost: x\r\n\r\n", b"\r\nGET / HTTP/1.1\n\n", b"GET /\xff HTTP/1.1\r\n\r\n"];
+    let resps: Vec<&[u8]> = vec![b"", b"HTTP/1.1", b"HTTP/1.1 404 Not Found\r\n", b"HTTP/1.1 404 Not Found\r\nA: 1\r\n\r\n", b"HTTP/1.1 200\r\n\r\n", b"HTTP/1.0 204\n\n",
+        b"HTTP/1.1 500 Internal Server Error\r\nX", b"HTTP/1.1 2x0 OK\r\n", b"HTTP/1.1 200 OK\r\nSer ver: x\r\n", b"HTTP/1.1 200 OK\r\nA: 1\r\nB: 2\r\n\r\n", b"HTTP/1.1 200 Caf\xc3\xa9\r\n\r\n",
+        b"HTTP/2.0 200 OK\r\n\r\n", b"HTTP/1.1  200  OK\r\n\r\n"];
+    for cap in [0usize, 1, 4] { for &ca in &[0u8, 4, 8, 127] { for &cb in &[0u8, 4, 8, 127] {
+        for a in &reqs { for b in &reqs { check_history_req(ctx, a, ca, b, cb, cap); } }
+        for a in &resps { for b in &resps { check_history_resp(ctx, a, ca, b, cb, cap); } }
+    } } }
+    // overlapping sub-slices of ONE allocation (stale pointers of an earlier parse lie inside the next buffer)
+    for big in &reqs { for i in 0..2usize { for k in 0..2usize { for j in (i..=big.len()).step_by(3) { for l in [big.len()] {
+        if i <= j && k <= l { check_history_req(ctx, &big[i..j], 0, &big[k..l], 0, 4); }
+    } } } } }
+    for big in &resps { for i in 0..2usize { for k in 0..2usize { for j in (i..=big.len()).step_by(3) { for l in [big.len()] {
+        if i <= j && k <= l { check_history_resp(ctx, &big[i..j], 0, &big[k..l], 0, 4); }
+    } } } } }
+}
+
 fn main() {
     install_panic_hook();
     let args: Vec<String> = std::env::args().collect();
@@ -436,6 +502,7 @@ fn main() {
         if fam == "request" || fam == "all" { search_request(&mut ctx); }
         if fam == "response" || fam == "all" { search_response(&mut ctx); }
         if fam == "headers" || fam == "all" { search_header_block(&mut ctx, b"", 2); }
+        if fam == "history" || fam == "all" { search_history(&mut ctx); }
         let pa = PARSE_ALLOCS.load(Ordering::Relaxed);
         if pa > 0 {
             ctx.max += 1;
